@@ -62,10 +62,12 @@ def preserve (ex c : Meta) : Meta :=
                   fenceUntil := ex.fenceUntil }
     else c
 
-/-- bumpRuntimeRoute -/
+/-- bumpRuntimeRoute: only `RouteGeneration` is assigned (twice); `runtimeRouteChanged`
+    does not read it, so its second-step argument is the incoming candidate -/
 def bump (ex c : Meta) (hadRG : Bool) : Meta :=
-  let c := if ¬ hadRG ∧ c.routeGen < ex.routeGen then { c with routeGen := ex.routeGen } else c
-  if routeChanged ex c ∧ c.routeGen ≤ ex.routeGen then { c with routeGen := nextRG ex.routeGen } else c
+  let g1 := if ¬ hadRG ∧ c.routeGen < ex.routeGen then ex.routeGen else c.routeGen
+  let g2 := if routeChanged ex c ∧ g1 ≤ ex.routeGen then nextRG ex.routeGen else g1
+  { c with routeGen := g2 }
 
 inductive Res where
   | applied | stale | conflict
